@@ -12,7 +12,7 @@ for f in ("patch.diff", "demo.py", "notes.md"):
     if os.path.exists(os.path.join(src, f)):
         shutil.copy(os.path.join(src, f), os.path.join(root, f))
 prop = sid.split("-")[0]
-origins = {"3": "independent sub-agent given only the property text and a scratch worktree; asked for triggers in rarely "
+origins = {"4": "independent sub-agent given only the property text and a scratch worktree; told the harness already covers rare characters, option combinations, several files per process and limits - asked for environment, scale, interaction and N-th-occurrence triggers (round 4)", "3": "independent sub-agent given only the property text and a scratch worktree; asked for triggers in rarely "
                 "exercised territory (adversarial round)"}
 json.dump({"id": sid, "property": prop, "round": int(rnd), "origin": origins.get(rnd, "independent sub-agent"),
            "needs_to_manifest": needs,
